@@ -566,6 +566,7 @@ PARTIAL = ("proved for every history state satisfying the invariant (db_ok) and 
            "monitor flags any failure other than the guard or a malformed request; (b) coverage after an index-channel delete and "
            "(c) invariant + coverage after writes - both validated by the sound checks db_okb/db_covb on every model state of "
            "every generated history")
+SRC_SPECS = ["telem"]     # translator/specs/telem.json -> Generated/Src_Telem.v (regenerated on every run)
 READY = True
 TECHNIQUE = ("Coq proof (storage invariant + alignment with the index; binary-search, Distance/Stamp specifications; "
              "refinement of pointer surgery to filtered (stamp, sample) lists; GC view preservation) + model/impl "
